@@ -119,19 +119,20 @@ func Intersect(ctx *expr.Context, input system.Collection, args ...expr.Expressi
 	if err != nil {
 		return nil, err
 	}
-	var result system.Collection
-	for _, i := range input {
-		for _, c := range argValues {
-			if checkEquality(i, c) {
-				v, _ := system.From(c)
-				result = append(result, v)
-			}
+	// keep each item of the input that is also in the other collection, once
+	result := system.Collection{}
+	for _, item := range input {
+		if !argValues.Contains(item) || result.Contains(item) {
+			continue
 		}
+		// primitives are returned as system types, complex types as they are
+		if primitive, err := system.From(item); err == nil {
+			result = append(result, primitive)
+			continue
+		}
+		result = append(result, item)
 	}
-	if len(result) == 0 {
-		return system.Collection{}, nil
-	}
-	return removeDuplicates(result), nil
+	return result, nil
 }
 
 // Exclude returns the set of elements that are not in the other collection.
